@@ -797,7 +797,7 @@ func runC17Stateless(c *Ctx) {
 	doneG := map[*ssa.Function]bool{}
 	nSites := 0
 	for _, caller := range p.Funcs {
-		if !strings.HasSuffix(p.File(caller.Pos()), "/rule_glob.go") {
+		if !strings.HasSuffix(p.unitFile(caller), "/rule_glob.go") {
 			continue
 		}
 		eachInstr(caller, func(_ *ssa.BasicBlock, _ int, in ssa.Instruction) {
